@@ -317,3 +317,113 @@ impl Default for Map32 {
         Self::new()
     }
 }
+
+/// Verification hooks (only with `--cfg mmtk_verif`): a private [`Map32`] instance (not the global
+/// `VM_MAP`), a number of discontiguous space descriptors, and one [`CommonPageResource`] per
+/// space holding the head of that space's region list exactly as the page resources do.
+///
+/// `Map32` itself depends on two globals: `vm_layout()` (only `max_chunks()`) and `SFT_MAP`
+/// (cleared for every freed chunk), so `SFT_MAP` must be initialised once per process
+/// ([`verif_hooks::init_sft_map`]).
+#[cfg(mmtk_verif)]
+pub mod verif_hooks {
+    use super::*;
+    use crate::util::heap::pageresource::CommonPageResource;
+
+    /// Initialise the global `SFT_MAP` the way `MMTK::new` does (idempotent).
+    pub fn init_sft_map() {
+        crate::policy::sft_map::SFTRefStorage::pre_use_check();
+        SFT_MAP.initialize_once(&crate::policy::sft_map::create_sft_map);
+    }
+
+    pub struct VerifMap32 {
+        // `prs` borrow `map`; they are declared (and therefore dropped) first.
+        prs: Vec<CommonPageResource>,
+        descs: Vec<SpaceDescriptor>,
+        discontig_start: Address,
+        map: Box<Map32>,
+    }
+
+    impl VerifMap32 {
+        /// `Map32::new()`, `spaces` fresh discontiguous descriptors (`SpaceDescriptor::create_descriptor`),
+        /// then `finalize_static_space_map(from, to, ..)` (`to` = address of the last heap byte).
+        pub fn new(spaces: usize, from: Address, to: Address) -> Self {
+            let map = Box::new(Map32::new());
+            let map_ref: &'static Map32 = unsafe { &*(map.as_ref() as *const Map32) };
+            let descs: Vec<SpaceDescriptor> =
+                (0..spaces).map(|_| SpaceDescriptor::create_descriptor()).collect();
+            let prs = (0..spaces)
+                .map(|_| CommonPageResource::new(false, true, map_ref))
+                .collect();
+            let mut discontig_start = Address::ZERO;
+            let vm_map: &dyn VMMap = map_ref;
+            vm_map.finalize_static_space_map(from, to, &mut |a| discontig_start = a);
+            VerifMap32 { prs, descs, discontig_start, map }
+        }
+        fn vm_map(&self) -> &dyn VMMap {
+            self.map.as_ref()
+        }
+        pub fn is_finalized(&self) -> bool {
+            self.vm_map().is_finalized()
+        }
+        pub fn discontig_start(&self) -> Address {
+            self.discontig_start
+        }
+        /// Which of this instance's descriptors (1-based) is recorded for `addr`; 0 for
+        /// `SpaceDescriptor::UNINITIALIZED`; -1 for anything else.
+        pub fn descriptor_index(&self, addr: Address) -> i64 {
+            let d = self.vm_map().get_descriptor_for_address(addr);
+            if d == SpaceDescriptor::UNINITIALIZED {
+                return 0;
+            }
+            match self.descs.iter().position(|x| *x == d) {
+                Some(i) => i as i64 + 1,
+                None => -1,
+            }
+        }
+        pub fn available_chunks(&self) -> usize {
+            self.vm_map().get_available_discontiguous_chunks()
+        }
+        pub fn next_region(&self, start: Address) -> Address {
+            self.vm_map().get_next_contiguous_region(start)
+        }
+        pub fn region_chunks(&self, start: Address) -> usize {
+            self.vm_map().get_contiguous_region_chunks(start)
+        }
+        pub fn region_size(&self, start: Address) -> usize {
+            self.vm_map().get_contiguous_region_size(start)
+        }
+
+        // ---- through CommonPageResource (the real caller protocol of pageresource.rs) ----
+        /// `CommonPageResource::grow_discontiguous_space` of space `s` (0-based).
+        pub fn pr_grow(&self, s: usize, chunks: usize) -> Address {
+            self.prs[s].grow_discontiguous_space(self.descs[s], chunks, None)
+        }
+        /// `CommonPageResource::release_discontiguous_chunks`
+        pub fn pr_release(&self, s: usize, chunk: Address) {
+            self.prs[s].release_discontiguous_chunks(chunk)
+        }
+        /// `CommonPageResource::release_all_chunks`
+        pub fn pr_release_all(&self, s: usize) {
+            self.prs[s].release_all_chunks()
+        }
+        /// `CommonPageResource::get_head_discontiguous_region`
+        pub fn pr_head(&self, s: usize) -> Address {
+            self.prs[s].get_head_discontiguous_region()
+        }
+
+        // ---- raw `VMMap` calls (the caller keeps the list head itself) ----
+        /// `VMMap::allocate_contiguous_chunks(descriptor of s, chunks, head, None)`
+        pub fn raw_allocate(&self, s: usize, chunks: usize, head: Address) -> Address {
+            unsafe { self.vm_map().allocate_contiguous_chunks(self.descs[s], chunks, head, None) }
+        }
+        /// `VMMap::free_contiguous_chunks(start)`
+        pub fn raw_free(&self, start: Address) -> usize {
+            unsafe { self.vm_map().free_contiguous_chunks(start) }
+        }
+        /// `VMMap::free_all_chunks(any_chunk)`
+        pub fn raw_free_all(&self, any_chunk: Address) {
+            self.vm_map().free_all_chunks(any_chunk)
+        }
+    }
+}
